@@ -333,7 +333,12 @@ class IncomingMessageHandler(IncomingMessageHandlerBase):
         if message.node_id not in gateway.nodes:
             raise MissingNodeError(message.node_id)
 
-        gateway.nodes[message.node_id].battery_level = round(float(message.payload))
+        try:
+            battery_level = round(float(message.payload))
+        except (ValueError, OverflowError) as err:
+            raise InvalidMessageError(err, message) from err
+
+        gateway.nodes[message.node_id].battery_level = battery_level
         return message
 
     @classmethod
